@@ -32,21 +32,27 @@ import (
 	"net/http"
 	"net/http/httptest"
 	"net/url"
+	"os"
 	"path/filepath"
+	"reflect"
 	"regexp"
 	"strconv"
 	"strings"
 	"sync"
 	"testing"
 	"time"
+	"unsafe"
 
 	"github.com/Cloud-Foundations/golib/pkg/log/nulllogger"
+	"github.com/Cloud-Foundations/keymaster/lib/authenticators/okta"
 	"github.com/Cloud-Foundations/keymaster/lib/paths"
+	"github.com/Cloud-Foundations/keymaster/lib/pwauth"
 	"github.com/duo-labs/webauthn/webauthn"
 	"github.com/go-jose/go-jose/v4"
 	"github.com/go-jose/go-jose/v4/jwt"
 	"github.com/pquerna/otp/totp"
 	"github.com/tstranex/u2f"
+	"golang.org/x/crypto/bcrypt"
 )
 
 // ---------------------------------------------------------------- fake VIP service
@@ -121,6 +127,108 @@ func (v *c05Vip) handle(w http.ResponseWriter, r *http.Request) {
 			st = "7000"
 		}
 		env(fmt.Sprintf(`<PollPushStatusResponse %s><requestId>x</requestId><status>0000</status><statusMessage>Success</statusMessage><transactionStatus><transactionId>%s</transactionId><status>%s</status><statusMessage>m</statusMessage></transactionStatus></PollPushStatusResponse>`, ns, tx, st))
+	default:
+		http.Error(w, "unknown call", 400)
+	}
+}
+
+// ---------------------------------------------------------------- fake Okta authn API
+
+// The Okta authentication API as the authenticator of lib/authenticators/okta uses it: the primary call
+// answers a password check with a NEW state token (MFA_REQUIRED, a TOTP and a push factor, expiresAt = now +
+// c05OktaLife); factors/totp/verify accepts the pass code of the user the state token belongs to;
+// factors/push/verify sends the push on the first call for a state token (WAITING), keeps answering WAITING
+// until the owner approves, answers SUCCESS once, and refuses afterwards (the transaction is finished).
+const c05OktaLife = 300
+
+type c05Okta struct {
+	mu        sync.Mutex
+	srv       *httptest.Server
+	nextTok   int
+	tokUser   map[string]string
+	userTok   map[string]string
+	push      map[string]int // per state token: 0 not started, 1 waiting, 2 approved, 3 finished
+	passwords map[string]string
+}
+
+func c05OktaCode(user int, good bool) int {
+	if !good {
+		return 888888
+	}
+	return 100000*user + 7373
+}
+
+func (o *c05Okta) reset() {
+	o.mu.Lock()
+	o.tokUser, o.userTok, o.push = map[string]string{}, map[string]string{}, map[string]int{}
+	o.mu.Unlock()
+}
+
+func (o *c05Okta) pushState(user string) int {
+	o.mu.Lock()
+	defer o.mu.Unlock()
+	return o.push[o.userTok[user]]
+}
+
+// the owner of the phone approves the push that is waiting for the user's current state token
+func (o *c05Okta) approve(user string) bool {
+	o.mu.Lock()
+	defer o.mu.Unlock()
+	tok, ok := o.userTok[user]
+	if !ok || o.push[tok] != 1 {
+		return false
+	}
+	o.push[tok] = 2
+	return true
+}
+
+func (o *c05Okta) handle(w http.ResponseWriter, r *http.Request) {
+	w.Header().Set("Content-Type", "application/json")
+	o.mu.Lock()
+	defer o.mu.Unlock()
+	switch {
+	case strings.HasSuffix(r.URL.Path, "/api/v1/authn"):
+		var in okta.OktaApiLoginDataType
+		json.NewDecoder(r.Body).Decode(&in)
+		if pw, ok := o.passwords[in.Username]; !ok || pw != in.Password {
+			w.WriteHeader(http.StatusUnauthorized)
+			return
+		}
+		tok := fmt.Sprintf("st-%06d", o.nextTok)
+		o.nextTok++
+		o.tokUser[tok], o.userTok[in.Username], o.push[tok] = in.Username, tok, 0
+		json.NewEncoder(w).Encode(okta.OktaApiPrimaryResponseType{StateToken: tok, Status: "MFA_REQUIRED",
+			ExpiresAtString: time.Now().Add(c05OktaLife * time.Second).UTC().Format(time.RFC3339Nano),
+			Embedded: okta.OktaApiEmbeddedDataResponseType{Factor: []okta.OktaApiMFAFactorsType{
+				{Id: "totp", FactorType: "token:software:totp", VendorName: "OKTA"}, {Id: "push", FactorType: "push", VendorName: "OKTA"}}}})
+	case strings.HasSuffix(r.URL.Path, "/factors/totp/verify"):
+		var in okta.OktaApiVerifyTOTPFactorDataType
+		json.NewDecoder(r.Body).Decode(&in)
+		user, ok := o.tokUser[in.StateToken]
+		if idx := c05UserIdx[user]; ok && idx != 0 && in.PassCode == fmt.Sprintf("%06d", c05OktaCode(idx, true)) {
+			json.NewEncoder(w).Encode(okta.OktaApiPrimaryResponseType{Status: "SUCCESS"})
+			return
+		}
+		w.WriteHeader(http.StatusForbidden)
+	case strings.HasSuffix(r.URL.Path, "/factors/push/verify"):
+		var in okta.OktaApiVerifyTOTPFactorDataType
+		json.NewDecoder(r.Body).Decode(&in)
+		if _, ok := o.tokUser[in.StateToken]; !ok {
+			w.WriteHeader(http.StatusForbidden)
+			return
+		}
+		switch o.push[in.StateToken] {
+		case 0:
+			o.push[in.StateToken] = 1
+			json.NewEncoder(w).Encode(okta.OktaApiPushResponseType{Status: "MFA_CHALLENGE", FactorResult: "WAITING"})
+		case 1:
+			json.NewEncoder(w).Encode(okta.OktaApiPushResponseType{Status: "MFA_CHALLENGE", FactorResult: "WAITING"})
+		case 2:
+			o.push[in.StateToken] = 3
+			json.NewEncoder(w).Encode(okta.OktaApiPushResponseType{Status: "SUCCESS"})
+		default:
+			w.WriteHeader(http.StatusForbidden)
+		}
 	default:
 		http.Error(w, "unknown call", 400)
 	}
@@ -224,6 +332,26 @@ func (k *c05Key) waSign(rpID, origin string, challenge []byte) []byte {
 
 type c05Devs struct{ totp, u2f, wa, profile bool }
 
+// one configuration of a check run: the NAMES of the two users, what is enrolled for them, and the order in
+// which their profile rows are written (the row written last is the last in the table's scan order)
+type c05Config struct {
+	tag   string
+	names [3]string // index = model user id (1, 2)
+	devs  map[int]c05Devs
+	order []int
+	okta  bool // the password backend is the Okta authenticator (else htpasswd)
+}
+
+func (c c05Config) class() string {
+	switch {
+	case c.okta:
+		return "okta"
+	case strings.HasPrefix(c.tag, "family"):
+		return "family"
+	}
+	return "plain"
+}
+
 type c05Cookie struct {
 	val        string
 	sub, level int
@@ -237,17 +365,22 @@ type c05Tok struct {
 }
 
 type c05World struct {
-	t      *testing.T
-	env    *verifEnv
-	vip    *c05Vip
-	res    *verifResult
-	names  []string // index = model user id
-	devs   map[int]c05Devs
-	secret map[int]string
-	u2fKey map[int]*c05Key
-	waKey  map[int]*c05Key
-	admin  *http.Cookie
-	webui  int
+	t        *testing.T
+	env      *verifEnv
+	vip      *c05Vip
+	res      *verifResult
+	names    []string // index = model user id
+	devs     map[int]c05Devs
+	cfg      c05Config
+	okta     *c05Okta
+	oktaAuth *okta.PasswordAuthenticator
+	htpasswd pwauth.PasswordAuthenticator
+	oktaAt   map[int]int64 // model time of the user's last successful password check through Okta
+	secret   map[int]string
+	u2fKey   map[int]*c05Key
+	waKey    map[int]*c05Key
+	admin    *http.Cookie
+	webui    int
 	// per history
 	cookies        []c05Cookie
 	tokens         []c05Tok
@@ -256,11 +389,14 @@ type c05World struct {
 	txReal         map[int]string
 	txOwner        map[int]int
 	vcTx           map[int]int
-	vcAt           map[int]int64 // model time at which the push transaction of that cookie value was started
+	vcAt           map[int]int64  // model time at which the push transaction of that cookie value was started
+	values         map[string]int // every one-time value ever handed out (challenge, bootstrap OTP, push transaction), by CONTENT -> id
+	handed         int            // id of the one-time value the current operation handed out (-1: none)
 	chalBytes      map[int][]byte
 	chalOwner      map[int]int
 	chalAt         map[int]int64
 	curChal        map[int]int
+	firstChal      map[int]int // the first challenge ever handed to the user
 	otpVal         map[int]string
 	otpOwner       map[int]int
 	otpExp         map[int]int64
@@ -269,16 +405,130 @@ type c05World struct {
 	provedAt       map[[2]int]int64 // model time of the latest verification of (user, factor)
 	accepted       map[string]bool
 	realStep       int64
-	expiredSession bool // the last auth cookie attached to the current request is expired
-	cert           int  // the next request carries a verified keymaster client certificate of this user (0: none)
-	fault          bool // profile writes fail during the next request
-	chains         map[int][][]*x509.Certificate
-	dirty          bool // stored profiles may differ from the pristine ones
-	savedFor       int  // configuration the stored profiles were written for
+	expiredSession bool                             // the last auth cookie attached to the current request is expired
+	cert           int                              // the next request carries a verified keymaster client certificate of this user (0: none)
+	fault          bool                             // profile writes fail during the next request
+	cachedReq      bool                             // the next request is served while the primary database does not answer in time (fromCache)
+	cachedWrote    bool                             // ... and the primary's user_profile table was different afterwards
+	chains         map[string][][]*x509.Certificate // by user name
+	dirty          bool                             // stored profiles may differ from the pristine ones
+	savedFor       int                              // configuration the stored profiles were written for
 	cfgID          int
 	ops            []string
 	outs           []string
 	human          []string
+}
+
+// The user-name family: names that are patterns of each other under the matchers of the layers a user name
+// travels through — SQL LIKE (`_` one character, `%` any run), LDAP filters (`*`, parentheses, backslash
+// escapes), regular expressions (`.`, `|`), paths (`/`, `..`).  Each pair is (an ordinary
+// account, an account whose NAME matches the ordinary one when read as a pattern); the two have distinct
+// secrets and devices.  Names are lower case (logins are normalised by reprocessUsername).
+var c05Family = [][2]string{
+	{"jadoe", "j_doe"},       // SQL LIKE _
+	{"jxdoe", "j%"},          // SQL LIKE %
+	{"j.doe", "j_doe"},       // both valid for the administrator's endpoints (bootstrap OTP)
+	{"jdoe", "j*"},           // LDAP filter / glob
+	{"jdoe", "jdoe)(uid=*"},  // LDAP filter syntax
+	{"jdoe", `j\64oe`},       // LDAP escape of 'd'
+	{"jadoe", "j.doe|jadoe"}, // regular expression
+	{"jdoe", "x/../jdoe"},    // path
+	// (blank padding — "jdoe " — cannot be an account: the htpasswd reader trims names)
+}
+
+func c05FamilyNames() []string {
+	seen := map[string]bool{}
+	var out []string
+	for _, p := range c05Family {
+		for _, n := range p {
+			if !seen[n] {
+				seen[n] = true
+				out = append(out, n)
+			}
+		}
+	}
+	return out
+}
+
+var c05AdminNameRE = regexp.MustCompile(`^[A-Za-z0-9-_.]+$`)
+
+// Configurations 0 and 1 are two users with unrelated names under two enrolments; the others run the name
+// family with the profile rows written in both orders (the other account's row older / newer) and with the
+// pattern-named user having no row at all.  A user whose name the administrator's endpoints refuse
+// (adminHandlers.go ensurePostAndGetUsername) is given a TOTP or U2F device or no row, so that "no bootstrap
+// OTP for this user" holds in the model for the model's own reason.
+func c05Configs() []c05Config {
+	full := c05Devs{totp: true, u2f: true, wa: true, profile: true}
+	cs := []c05Config{
+		{tag: "plain-a", names: [3]string{"", "alice", "bob"}, devs: map[int]c05Devs{1: {totp: true, u2f: true, profile: true}, 2: {wa: true, profile: true}}, order: []int{1, 2}},
+		{tag: "plain-b", names: [3]string{"", "alice", "bob"}, devs: map[int]c05Devs{1: full, 2: {profile: true}}, order: []int{1, 2}},
+	}
+	for i, p := range c05Family {
+		names := [3]string{"", p[0], p[1]}
+		adminOK := c05AdminNameRE.MatchString(p[0]) && c05AdminNameRE.MatchString(p[1])
+		switch {
+		case adminOK && i%2 == 0:
+			// device-less accounts: the bootstrap OTP of one in the session of the other, both row orders
+			cs = append(cs, c05Config{tag: "family-" + p[1] + "-otp-older", names: names, devs: map[int]c05Devs{1: {profile: true}, 2: {profile: true}}, order: []int{1, 2}})
+			cs = append(cs, c05Config{tag: "family-" + p[1] + "-otp-newer", names: names, devs: map[int]c05Devs{1: {wa: true, profile: true}, 2: {profile: true}}, order: []int{2, 1}})
+			fallthrough
+		default:
+			// the other account's row older than the pattern-named user's own row
+			cs = append(cs, c05Config{tag: "family-" + p[1] + "-older", names: names, devs: map[int]c05Devs{1: full, 2: {totp: true, wa: true, profile: true}}, order: []int{1, 2}})
+			// ... newer
+			cs = append(cs, c05Config{tag: "family-" + p[1] + "-newer", names: names, devs: map[int]c05Devs{1: full, 2: {totp: true, u2f: true, profile: true}}, order: []int{2, 1}})
+			// ... and the pattern-named user without a row
+			cs = append(cs, c05Config{tag: "family-" + p[1] + "-norow", names: names, devs: map[int]c05Devs{1: full, 2: {}}, order: []int{1}})
+		}
+	}
+	// the Okta authenticator as password backend: every login goes to the (fake) Okta authn API, which is
+	// also what the Okta second factor asks; once with plain names, once with a pair of the family
+	cs = append(cs, c05Config{tag: "okta-plain", names: [3]string{"", "alice", "bob"}, devs: map[int]c05Devs{1: {totp: true, u2f: true, profile: true}, 2: {wa: true, profile: true}}, order: []int{1, 2}, okta: true})
+	cs = append(cs, c05Config{tag: "okta-family", names: [3]string{"", "jadoe", "j_doe"}, devs: map[int]c05Devs{1: full, 2: {profile: true}}, order: []int{1, 2}, okta: true})
+	return cs
+}
+
+func (w *c05World) use(configs []c05Config, ci int) {
+	c := configs[ci]
+	w.cfg, w.devs, w.cfgID = c, c.devs, ci
+	w.names = []string{"", c.names[1], c.names[2], "admin"}
+	c05UserIdx = map[string]int{c.names[1]: 1, c.names[2]: 2, "admin": 3}
+	if c.okta {
+		w.env.state.passwordChecker = w.oktaAuth
+	} else {
+		w.env.state.passwordChecker = w.htpasswd
+	}
+}
+
+// recentAuth of the Okta authenticator (unexported, another package): the cached answers of the password checks
+func (w *c05World) oktaCache() reflect.Value {
+	f := reflect.ValueOf(w.oktaAuth).Elem().FieldByName("recentAuth")
+	return reflect.NewAt(f.Type(), unsafe.Pointer(f.UnsafeAddr())).Elem()
+}
+
+func (w *c05World) clearOktaCache() {
+	m := w.oktaCache()
+	for _, key := range m.MapKeys() {
+		m.SetMapIndex(key, reflect.Value{})
+	}
+}
+
+// simulated time for the Okta authenticator: every cached answer expires d earlier
+func (w *c05World) ageOkta(d time.Duration) {
+	m := w.oktaCache()
+	for _, key := range m.MapKeys() {
+		nv := reflect.New(m.Type().Elem()).Elem()
+		nv.Set(m.MapIndex(key))
+		ef := nv.FieldByName("expires")
+		ep := reflect.NewAt(ef.Type(), unsafe.Pointer(ef.UnsafeAddr())).Elem()
+		ep.Set(reflect.ValueOf(ep.Interface().(time.Time).Add(-d)))
+		m.SetMapIndex(key, nv)
+	}
+}
+
+func (w *c05World) oktaValid(u int) bool {
+	at, ok := w.oktaAt[u]
+	return w.cfg.okta && ok && w.nowM < at+c05OktaLife
 }
 
 // A CLI token's expiry is a signed claim the harness cannot move: tokens that must stay valid live longer
@@ -288,13 +538,19 @@ const c05TokenLife = 1000000
 
 const (
 	c05PW, c05U2F, c05VIP, c05TOTP, c05BOOT, c05X509, c05CLI, c05FIDO2 = 1, 3, 4, 6, 8, 9, 10, 11
+	c05OKTA                                                            = 7
 )
 
 var c05Factors = []int{1, 2, 3, 4, 5, 6, 7, 8, 9, 10, 11}
 
 func (w *c05World) saveProfiles() {
 	st := w.env.state
-	for u := 1; u <= 2; u++ {
+	// the table holds exactly the rows of this configuration, written in its order: the row written
+	// last is the last one a table scan meets
+	if _, err := st.db.Exec(`DELETE FROM user_profile`); err != nil {
+		w.t.Fatalf("wiping user_profile: %v", err)
+	}
+	for _, u := range w.cfg.order {
 		d := w.devs[u]
 		if !d.profile {
 			continue
@@ -343,13 +599,18 @@ func (w *c05World) reset() {
 	w.cookies, w.tokens, w.fresh, w.nowM = nil, nil, 0, 0
 	w.txReal, w.txOwner, w.vcTx = map[int]string{}, map[int]int{}, map[int]int{}
 	w.vcAt = map[int]int64{}
+	w.values, w.handed = map[string]int{}, -1
+	w.oktaAt = map[int]int64{}
+	w.okta.reset()
+	w.clearOktaCache()
+	w.firstChal = map[int]int{}
 	w.chalBytes, w.chalOwner, w.chalAt, w.curChal = map[int][]byte{}, map[int]int{}, map[int]int64{}, map[int]int{}
 	w.otpVal, w.otpOwner, w.otpExp, w.curOtp = map[int]string{}, map[int]int{}, map[int]int64{}, map[int]int{}
 	w.proved, w.accepted = map[[2]int]bool{}, map[string]bool{}
 	w.provedAt = map[[2]int]int64{}
 	w.cert, w.fault = 0, false
 	if w.chains == nil {
-		w.chains = map[int][][]*x509.Certificate{}
+		w.chains = map[string][][]*x509.Certificate{}
 	}
 	w.realStep = time.Now().Unix() / 30
 	w.ops, w.outs, w.human = nil, nil, nil
@@ -415,6 +676,17 @@ func (w *c05World) shiftTotp(steps int64) {
 		return
 	}
 	st := w.env.state
+	// the step of the last success that validateUserTOTP keeps in memory (if this tree has one)
+	st.totpLocalTateLimitMutex.Lock()
+	for u, e := range st.totpLocalRateLimit {
+		if f := reflect.ValueOf(&e).Elem().FieldByName("lastSuccessCounter"); f.IsValid() && f.Kind() == reflect.Int64 {
+			if p := (*int64)(unsafe.Pointer(f.UnsafeAddr())); *p != 0 {
+				*p -= steps
+				st.totpLocalRateLimit[u] = e
+			}
+		}
+	}
+	st.totpLocalTateLimitMutex.Unlock()
 	for u := 1; u <= 2; u++ {
 		if !w.devs[u].profile {
 			continue
@@ -433,7 +705,7 @@ func (w *c05World) shiftTotp(steps int64) {
 
 func (w *c05World) tick(dt int64) {
 	w.ops = append(w.ops, fmt.Sprintf("Tick %d", dt))
-	w.outs = append(w.outs, "(true, None)")
+	w.outs = append(w.outs, "(true, None, None)")
 	w.human = append(w.human, fmt.Sprintf("Tick(%ds)", dt))
 	if dt <= 0 {
 		return
@@ -466,6 +738,7 @@ func (w *c05World) tick(dt int64) {
 			w.dirty = true
 		}
 	}
+	w.ageOkta(d)
 	st.Mutex.Lock()
 	for v, e := range st.vipPushCookie {
 		e.ExpiresAt = e.ExpiresAt.Add(-d)
@@ -529,10 +802,10 @@ func (w *c05World) attachMask(req *http.Request, cs []int, anyMask bool) (sessio
 		w.res.bump("request:several-auth-cookies")
 	}
 	if w.cert != 0 {
-		ch, ok := w.chains[w.cert]
+		ch, ok := w.chains[w.names[w.cert]]
 		if !ok {
 			ch = w.env.keymasterChain(w.names[w.cert], time.Now().Add(-time.Minute), &w.u2fKey[1].priv.PublicKey)
-			w.chains[w.cert] = ch
+			w.chains[w.names[w.cert]] = ch
 		}
 		withTLS(req, ch, "")
 		w.prove(w.cert, c05X509) // presenting the certificate proves its key
@@ -547,6 +820,9 @@ func (w *c05World) attach(req *http.Request, cs []int) (int, int) { return w.att
 
 // the Coq / human text of the operation with its request modifiers
 func (w *c05World) wrap(coq, human string) (string, string) {
+	if w.cachedReq {
+		return fmt.Sprintf("Cached (%s)", coq), "cached+" + human
+	}
 	if w.cert == 0 && !w.fault {
 		return coq, human
 	}
@@ -566,6 +842,31 @@ func (w *c05World) with(cert int, fault bool, f func()) {
 	w.cert, w.fault = cert, fault
 	f()
 	w.cert, w.fault = 0, false
+}
+
+// run one operation as a request during which every profile read is served from the cache database
+func (w *c05World) cached(f func()) {
+	w.cachedReq = true
+	f()
+	w.cachedReq = false
+}
+
+func (w *c05World) profileRows() string {
+	rows, err := w.env.state.db.Query(`SELECT username, profile_data FROM user_profile ORDER BY username`)
+	if err != nil {
+		w.t.Fatalf("reading user_profile: %v", err)
+	}
+	defer rows.Close()
+	var sb strings.Builder
+	for rows.Next() {
+		var n string
+		var b []byte
+		if err := rows.Scan(&n, &b); err != nil {
+			w.t.Fatal(err)
+		}
+		sb.WriteString(fmt.Sprintf("%q:%x;", n, sha256.Sum256(b)))
+	}
+	return sb.String()
 }
 
 func c05CoqList(cs []int) string {
@@ -658,6 +959,11 @@ func (w *c05World) record(kind, coqOp, human string, sessionUser int, ok bool, e
 	if w.fault {
 		w.res.bump("request:write-fault")
 	}
+	if w.cachedWrote {
+		w.res.hit(verifHit{Key: "C05:cached-write:" + kind, Oracle: "a request served from the cache writes no profile back", Kind: "history",
+			What: fmt.Sprintf("%s was served from the cache database and the primary's user_profile table changed", kind), Case: append(append([]string{}, w.human...), human)})
+		w.cachedWrote = false
+	}
 	w.ops = append(w.ops, coqOp)
 	w.human = append(w.human, human)
 	out := "None"
@@ -667,7 +973,7 @@ func (w *c05World) record(kind, coqOp, human string, sessionUser int, ok bool, e
 	if len(em) > 1 {
 		w.res.hit(verifHit{Key: "C05:harness:two-cookies:" + kind, Oracle: "harness", What: "one response carried two auth cookies", Case: w.human})
 	}
-	w.outs = append(w.outs, fmt.Sprintf("(%s, %s)", coqBool(ok), out))
+	w.outs = append(w.outs, fmt.Sprintf("(%s, %s, %s)", coqBool(ok), out, w.handedCoq()))
 	for _, c := range em {
 		w.cookies = append(w.cookies, c)
 		for _, f := range c05Factors {
@@ -729,6 +1035,23 @@ func (w *c05World) serve(req *http.Request) *httptest.ResponseRecorder {
 			}
 		}()
 	}
+	if w.cachedReq {
+		// the cache is an up-to-date copy; the primary does not answer within the (zero) deadline, so every
+		// LoadUserProfile of this request takes its cache branch
+		st := w.env.state
+		if err := copyDBIntoSQLite(st.db, st.cacheDB, "sqlite"); err != nil {
+			w.t.Fatalf("copying into the cache: %v", err)
+		}
+		before := w.profileRows()
+		old := st.remoteDBQueryTimeout
+		st.remoteDBQueryTimeout = 0
+		rr, _ := w.env.serve(req)
+		time.Sleep(15 * time.Millisecond) // late readers of the primary and asynchronous saves
+		st.remoteDBQueryTimeout = old
+		w.cachedWrote = w.profileRows() != before
+		w.res.bump("request:from-cache")
+		return rr
+	}
 	rr, _ := w.env.serve(req)
 	return rr
 }
@@ -746,6 +1069,9 @@ func (w *c05World) login(u int, ok bool) {
 	em := w.emitted(rr)
 	if ok {
 		w.prove(u, c05PW)
+		if w.cfg.okta && len(em) > 0 {
+			w.oktaAt[u] = w.nowM // a new state token, cached for c05OktaLife seconds
+		}
 	}
 	w.record("Login", fmt.Sprintf("Login %d %s", u, coqBool(ok)), fmt.Sprintf("Login(%s,%v)", w.names[u], ok), 0, rr.Code < 400, em)
 }
@@ -790,11 +1116,13 @@ func (w *c05World) pushStart(cs []int, vc int) {
 	}
 	w.vip.mu.Unlock()
 	if ok && started {
-		w.txReal[w.fresh] = last
-		w.txOwner[w.fresh] = c05UserIdx[lastUser]
-		w.vcTx[vc] = w.fresh
+		id, isNew := w.valueID("PushStart", []byte("vip-transaction:"+last))
+		if isNew {
+			w.txReal[id] = last
+			w.txOwner[id] = c05UserIdx[lastUser]
+		}
+		w.vcTx[vc] = id
 		w.vcAt[vc] = w.nowM
-		w.fresh++
 	} else if ok != started {
 		w.res.hit(verifHit{Key: "C05:harness:pushstart", Oracle: "harness", What: fmt.Sprintf("push start answered %d, transaction started=%v", rr.Code, started), Case: w.human})
 	}
@@ -810,7 +1138,7 @@ func (w *c05World) approve(tx int) {
 		w.prove(w.txOwner[tx], c05VIP)
 	}
 	w.ops = append(w.ops, fmt.Sprintf("Approve %d", tx))
-	w.outs = append(w.outs, "(true, None)")
+	w.outs = append(w.outs, "(true, None, None)")
 	w.human = append(w.human, fmt.Sprintf("Approve(tx%d)", tx))
 	w.res.bump("op:Approve")
 }
@@ -866,7 +1194,10 @@ func (w *c05World) totp(cs []int, owner int, step int64) {
 		}
 	}
 	st.totpLocalTateLimitMutex.Lock()
-	st.totpLocalRateLimit = map[string]totpRateLimitInfo{} // C14's subject; here every attempt is evaluated
+	for u, e := range st.totpLocalRateLimit { // C14's subject; here every attempt is evaluated (what else the entry remembers stays)
+		e.lastCheckTime, e.failCount, e.lastFailTime, e.lockoutExpirationTime = time.Time{}, 0, time.Time{}, time.Time{}
+		st.totpLocalRateLimit[u] = e
+	}
 	st.totpLocalTateLimitMutex.Unlock()
 	f := url.Values{}
 	f.Set("OTP", code)
@@ -896,7 +1227,7 @@ func (w *c05World) u2fBegin(cs []int) {
 			w.t.Fatalf("sign request: %v %s", err, rr.Body.String())
 		}
 		ch, _ := c05B64.DecodeString(sr.Challenge)
-		w.newChallenge(su, ch)
+		w.newChallenge("U2fBegin", su, ch)
 	}
 	w.record("U2fBegin", "U2fBegin "+c05CoqList(cs), fmt.Sprintf("U2fBegin%v", cs), su, ok, w.emitted(rr))
 }
@@ -923,16 +1254,49 @@ func (w *c05World) waBegin(cs []int) {
 		if err != nil {
 			w.t.Fatalf("webauthn challenge %q: %v", opts.PublicKey.Challenge, err)
 		}
-		w.newChallenge(su, ch)
+		w.newChallenge("WaBegin", su, ch)
 	}
 	w.record("WaBegin", "WaBegin "+c05CoqList(cs), fmt.Sprintf("WaBegin%v", cs), su, ok, w.emitted(rr))
 }
 
-func (w *c05World) newChallenge(user int, ch []byte) {
-	id := w.fresh
+// One-time values are identified by CONTENT: every challenge / bootstrap OTP / push transaction the server
+// has ever handed out in this history is kept with the id of its FIRST appearance.  Bytes seen before are the
+// same value — same id, same first issue time (hence the same original expiry) —, whichever operation
+// "created" them this time.
+func (w *c05World) valueID(kind string, content []byte) (id int, isNew bool) {
+	key := fmt.Sprintf("%x", content)
+	if id, ok := w.values[key]; ok {
+		w.handed = id
+		w.res.bump("value:handed-out-again:" + kind)
+		return id, false
+	}
+	id = w.fresh
 	w.fresh++
-	w.chalBytes[id], w.chalOwner[id], w.chalAt[id] = ch, user, w.nowM
-	w.curChal[user] = id
+	w.values[key] = id
+	w.handed = id
+	w.res.bump("value:new:" + kind)
+	return id, true
+}
+
+// the observation of the step: which one-time value was handed out
+func (w *c05World) handedCoq() string {
+	h := w.handed
+	w.handed = -1
+	if h < 0 {
+		return "None"
+	}
+	return fmt.Sprintf("Some %d", h)
+}
+
+func (w *c05World) newChallenge(kind string, user int, ch []byte) {
+	id, isNew := w.valueID(kind, ch)
+	if isNew {
+		w.chalBytes[id], w.chalOwner[id], w.chalAt[id] = ch, user, w.nowM
+		if _, ok := w.firstChal[user]; !ok {
+			w.firstChal[user] = id
+		}
+	}
+	w.curChal[user] = id // what is pending for the user now
 }
 
 func (w *c05World) key(owner int, wa bool) *c05Key {
@@ -965,7 +1329,9 @@ func (w *c05World) finish(kind string, cs []int, owner int, wa bool, chal int) {
 	req.RemoteAddr = "10.1.2.3:34567"
 	su, _ := w.attach(req, cs)
 	// the environment's positive answer: owner's key signed the challenge pending for owner, in owner's session
-	if known && owner == su && w.chalOwner[chal] == owner && w.curChal[owner] == chal && ((wa && w.devs[owner].wa) || (!wa && w.devs[owner].u2f)) {
+	// — a challenge that is within its (original) lifetime and was not answered before
+	if known && owner == su && w.chalOwner[chal] == owner && w.curChal[owner] == chal && ((wa && w.devs[owner].wa) || (!wa && w.devs[owner].u2f)) &&
+		w.nowM < w.chalAt[chal]+int64(maxAgeU2FVerifySeconds) && !w.accepted[fmt.Sprintf("challenge:%d", chal)] {
 		w.prove(owner, c05U2F)
 		if kind == "WaFinish" && wa {
 			w.prove(owner, c05FIDO2)
@@ -980,7 +1346,63 @@ func (w *c05World) finish(kind string, cs []int, owner int, wa bool, chal int) {
 	}
 	w.record(kind, fmt.Sprintf("%s %s (A %d %d %s)", kind, c05CoqList(cs), owner, chal, coqBool(wa)),
 		fmt.Sprintf("%s%v(key of %s, wa=%v, challenge %d)", kind, cs, w.names[owner], wa, chal), su, rr.Code < 400, em)
-	w.acceptOnce(kind, fmt.Sprintf("challenge:%d", chal), known && w.nowM >= w.chalAt[chal]+30, em)
+	w.acceptOnce(kind, fmt.Sprintf("challenge:%d", chal), known && w.nowM >= w.chalAt[chal]+int64(maxAgeU2FVerifySeconds), em)
+}
+
+// ---- the Okta second factor
+func (w *c05World) oktaExpiredOracle(kind string, su int, em []c05Cookie) {
+	if at, ok := w.oktaAt[su]; len(em) > 0 && su != 0 && (!ok || w.nowM >= at+c05OktaLife) {
+		w.res.hit(verifHit{Key: "C05:expired:" + kind, Oracle: "an expired value never works", Kind: "history",
+			What: fmt.Sprintf("%s raised the level of %s although the Okta authentication it relies on is past its expiry (or never happened)", kind, w.names[su]), Case: append([]string{}, w.human...)})
+	}
+}
+
+func (w *c05World) oktaOtp(cs []int, owner int, good bool) {
+	f := url.Values{}
+	f.Set("OTP", fmt.Sprintf("%06d", c05OktaCode(owner, good)))
+	req := verifNewRequest("POST", okta2FAauthPath, f)
+	su, _ := w.attach(req, cs)
+	if good && su == owner && w.oktaValid(su) {
+		w.prove(owner, c05OKTA)
+	}
+	rr := w.serve(req)
+	em := w.emitted(rr)
+	code := "VBad"
+	if good {
+		code = fmt.Sprintf("(VGood %d)", owner)
+	}
+	w.record("OktaOtp", fmt.Sprintf("OktaOtp %s %s", c05CoqList(cs), code), fmt.Sprintf("OktaOtp%v(code of %s, good=%v)", cs, w.names[owner], good), su, rr.Code < 400, em)
+	w.oktaExpiredOracle("OktaOtp", su, em)
+}
+
+func (w *c05World) oktaPushStart(cs []int) {
+	req := verifNewRequest("POST", oktaPushStartPath, url.Values{})
+	su, _ := w.attach(req, cs)
+	rr := w.serve(req)
+	w.record("OktaPushStart", "OktaPushStart "+c05CoqList(cs), fmt.Sprintf("OktaPushStart%v", cs), su, rr.Code == 200, w.emitted(rr))
+}
+
+func (w *c05World) oktaApprove(u int) {
+	if w.okta.approve(w.names[u]) {
+		w.prove(u, c05OKTA) // the owner of the phone approves: that user has proved the factor
+	}
+	w.ops = append(w.ops, fmt.Sprintf("OktaApprove %d", u))
+	w.outs = append(w.outs, "(true, None, None)")
+	w.human = append(w.human, fmt.Sprintf("OktaApprove(%s)", w.names[u]))
+	w.res.bump("op:OktaApprove")
+}
+
+func (w *c05World) oktaPoll(cs []int) {
+	req := verifNewRequest("POST", oktaPollCheckPath, url.Values{})
+	su, _ := w.attach(req, cs)
+	// the service confirms now that the authenticated user approved the push for her current state token
+	if su != 0 && w.oktaValid(su) && w.okta.pushState(w.names[su]) == 2 {
+		w.prove(su, c05OKTA)
+	}
+	rr := w.serve(req)
+	em := w.emitted(rr)
+	w.record("OktaPoll", "OktaPoll "+c05CoqList(cs), fmt.Sprintf("OktaPoll%v", cs), su, rr.Code < 400, em)
+	w.oktaExpiredOracle("OktaPoll", su, em)
 }
 
 func (w *c05World) issueOtp(target int, dur int64) {
@@ -997,18 +1419,24 @@ func (w *c05World) issueOtp(target int, dur int64) {
 		if err := json.Unmarshal(rr.Body.Bytes(), &d); err != nil || d.BootstrapOTPValue == "" {
 			w.t.Fatalf("bootstrap otp response: %v %s", err, rr.Body.String())
 		}
-		id := w.fresh
-		w.fresh++
+		id, isNew := w.valueID("IssueOtp", []byte("bootstrap-otp:"+d.BootstrapOTPValue))
 		eff := dur
 		if eff < 60 {
 			eff = 60
 		}
-		w.otpVal[id], w.otpOwner[id], w.otpExp[id] = d.BootstrapOTPValue, target, w.nowM+eff
+		if isNew {
+			w.otpVal[id], w.otpOwner[id], w.otpExp[id] = d.BootstrapOTPValue, target, w.nowM+eff
+		}
 		w.curOtp[target] = id
+	}
+	if w.cachedWrote {
+		w.res.hit(verifHit{Key: "C05:cached-write:IssueOtp", Oracle: "a request served from the cache writes no profile back", Kind: "history",
+			What: "IssueOtp was served from the cache database and the primary's user_profile table changed", Case: append([]string{}, w.human...)})
+		w.cachedWrote = false
 	}
 	coq, human := w.wrap(fmt.Sprintf("IssueOtp %d %d", target, dur), fmt.Sprintf("IssueOtp(%s,%ds)", w.names[target], dur))
 	w.ops = append(w.ops, coq)
-	w.outs = append(w.outs, fmt.Sprintf("(%s, None)", coqBool(ok)))
+	w.outs = append(w.outs, fmt.Sprintf("(%s, None, %s)", coqBool(ok), w.handedCoq()))
 	w.human = append(w.human, human)
 	w.res.bump("op:IssueOtp")
 }
@@ -1112,6 +1540,12 @@ func (w *c05World) alphabet() []func() {
 		}
 		return -1
 	}
+	first := func(u int) int {
+		if id, ok := w.firstChal[u]; ok {
+			return id
+		}
+		return 9999
+	}
 	return []func(){
 		func() { w.totp([]int{0}, 1, w.modelStep()) },
 		func() { w.totp([]int{1, 0}, 1, w.modelStep()) },
@@ -1140,6 +1574,14 @@ func (w *c05World) alphabet() []func() {
 		func() { w.vipOtp([]int{2, last()}, 1, true) },
 		func() { w.totp([]int{99, 0}, 1, w.modelStep()) },
 		func() { w.totp([]int{0, 99}, 1, w.modelStep()) },
+		// a second sign request after the lifetime of the first; an assertion over the FIRST challenge alice was
+		// ever handed; the other user's code in one's own session
+		func() { w.tick(31); w.u2fBegin([]int{0}) },
+		func() { w.finish("U2fFinish", []int{0}, 1, false, first(1)) },
+		func() { w.totp([]int{1}, 1, w.modelStep()) },
+		// the primary database is slow: profiles come from the cache
+		func() { w.cached(func() { w.totp([]int{0}, 1, w.modelStep()) }) },
+		func() { w.cached(func() { w.bootstrap([]int{1}, otp(2)) }) },
 	}
 }
 
@@ -1160,6 +1602,10 @@ func (w *c05World) randomOp(rng *mrand.Rand) {
 	}
 	if rng.Intn(12) == 0 {
 		fault = true
+	}
+	if rng.Intn(10) == 0 {
+		w.cached(func() { w.randomOpPlain(rng) })
+		return
 	}
 	w.with(cert, fault, func() { w.randomOpPlain(rng) })
 }
@@ -1216,16 +1662,71 @@ func (w *c05World) randomOpPlain(rng *mrand.Rand) {
 			}
 			return pickCs()
 		}
-		switch rng.Intn(9) {
+		other := 3 - u
+		if w.cfg.okta && rng.Intn(2) == 0 {
+			// continue the user's Okta push where it stands, or present a pass code
+			switch st := w.okta.pushState(w.names[u]); {
+			case rng.Intn(4) == 0:
+				w.oktaOtp(ses(), u, true)
+			case st == 0:
+				w.oktaPushStart(ses())
+			case st == 1 && rng.Intn(3) != 0:
+				w.oktaApprove(u)
+			default:
+				w.oktaPoll(ses())
+			}
+			return
+		}
+		switch rng.Intn(10) {
+		case 9: // a value of the other user, presented in a session of u
+			own := []int{}
+			for i, c := range w.cookies {
+				if c.sub == u {
+					own = append(own, i)
+				}
+			}
+			if len(own) == 0 {
+				break
+			}
+			cs := []int{own[len(own)-1]}
+			switch rng.Intn(4) {
+			case 0:
+				w.totp(cs, other, w.modelStep()+int64(rng.Intn(2)))
+			case 1:
+				if id, ok := w.curChal[u]; ok {
+					w.finish([]string{"U2fFinish", "WaFinish"}[rng.Intn(2)], cs, other, rng.Intn(2) == 0, id)
+				} else {
+					w.u2fBegin(cs)
+				}
+			case 2:
+				if id, ok := w.curOtp[other]; ok {
+					w.bootstrap(cs, id)
+				} else {
+					w.issueOtp(other, 3600)
+				}
+			default:
+				if w.cfg.okta {
+					w.oktaOtp(cs, other, true)
+				} else {
+					w.vipOtp(cs, other, true)
+				}
+			}
+			return
 		case 0:
-			if id, ok := w.curChal[u]; ok {
+			if id, ok := w.curChal[u]; ok && rng.Intn(4) != 0 {
+				if rng.Intn(4) == 0 {
+					id = w.firstChal[u] // an assertion over the first challenge the user was ever handed
+				}
 				w.finish("U2fFinish", ses(), u, w.devs[u].wa && (!w.devs[u].u2f || rng.Intn(2) == 0), id)
 				return
 			}
-			w.u2fBegin(ses())
+			w.u2fBegin(ses()) // possibly while a challenge is pending
 			return
 		case 1:
-			if id, ok := w.curChal[u]; ok {
+			if id, ok := w.curChal[u]; ok && rng.Intn(4) != 0 {
+				if rng.Intn(4) == 0 {
+					id = w.firstChal[u]
+				}
 				w.finish("WaFinish", ses(), u, w.devs[u].wa && (!w.devs[u].u2f || rng.Intn(2) == 0), id)
 				return
 			}
@@ -1243,16 +1744,30 @@ func (w *c05World) randomOpPlain(rng *mrand.Rand) {
 			w.pushStart(ses(), u-1)
 			return
 		case 3:
-			if id, ok := w.curOtp[u]; ok {
+			if id, ok := w.curOtp[u]; ok && rng.Intn(4) != 0 {
 				w.bootstrap(ses(), id)
 				return
 			}
-			w.issueOtp(u, 3600)
+			w.issueOtp(u, []int64{60, 3600}[rng.Intn(2)])
 			return
 		case 4:
 			w.totp(ses(), u, w.modelStep()+int64(rng.Intn(3))-1)
 			return
 		case 5:
+			if w.cfg.okta {
+				// continue the user's Okta push where it stands, or present a pass code
+				switch st := w.okta.pushState(w.names[u]); {
+				case rng.Intn(3) == 0:
+					w.oktaOtp(ses(), u, true)
+				case st == 0:
+					w.oktaPushStart(ses())
+				case st == 1 && rng.Intn(3) != 0:
+					w.oktaApprove(u)
+				default:
+					w.oktaPoll(ses())
+				}
+				return
+			}
 			w.vipOtp(ses(), u, true)
 			return
 		case 6:
@@ -1303,11 +1818,24 @@ func (w *c05World) randomOpPlain(rng *mrand.Rand) {
 			w.bootstrap(pickCs(), rng.Intn(w.fresh+1)-1)
 		}
 	case 17:
+		if w.cfg.okta || rng.Intn(4) == 0 {
+			switch rng.Intn(5) {
+			case 0:
+				w.oktaOtp(pickCs(), user(), rng.Intn(4) != 0)
+			case 1:
+				w.oktaPushStart(pickCs())
+			case 2:
+				w.oktaApprove(user())
+			default:
+				w.oktaPoll(pickCs())
+			}
+			return
+		}
 		w.showTok(pickCs(), []int64{0, c05TokenLife}[rng.Intn(2)])
 	case 18:
 		w.sendDoc(pickCs(), rng.Intn(len(w.tokens)+1))
 	default:
-		w.tick([]int64{30, 30, 60, 3600, 3600, 6 * 3600}[rng.Intn(6)])
+		w.tick([]int64{30, 31, 45, 60, 150, 3600, 3600, 6 * 3600}[rng.Intn(8)])
 	}
 }
 
@@ -1484,12 +2012,216 @@ func (w *c05World) targeted() []func() {
 			w.sendDoc([]int{2}, 1)
 			w.totp([]int{len(w.cookies) - 1}, 1, w.modelStep()+1)
 		},
+		func() { // a second sign request: a NEW value every time; the first one stays dead after its lifetime
+			w.u2fBegin([]int{0})
+			first := w.curChal[1]
+			w.tick(31)           // past the 30 s of the challenge, before any cleanup sweep
+			w.u2fBegin([]int{0}) // same session
+			w.finish("U2fFinish", []int{0}, 1, false, first)
+			w.finish("U2fFinish", []int{0}, 1, false, w.curChal[1])
+			w.u2fBegin([]int{0})
+			first = w.curChal[1]
+			w.tick(45)
+			w.login(1, true) // another session of the same user asks
+			last := len(w.cookies) - 1
+			w.u2fBegin([]int{last})
+			w.finish("U2fFinish", []int{0}, 1, false, first)
+			w.finish("U2fFinish", []int{last}, 1, false, first)
+			w.finish("U2fFinish", []int{last}, 1, false, w.curChal[1])
+			// within the lifetime: the second request REPLACES the pending challenge
+			w.u2fBegin([]int{0})
+			first = w.curChal[1]
+			w.u2fBegin([]int{last})
+			w.finish("U2fFinish", []int{0}, 1, false, first)
+			w.finish("U2fFinish", []int{0}, 1, false, w.curChal[1])
+			// the WebAuthn begin, and one handler's challenge revived through the other
+			w.waBegin([]int{0})
+			first = w.curChal[1]
+			w.tick(31)
+			w.waBegin([]int{0})
+			w.finish("WaFinish", []int{0}, 1, false, first)
+			w.finish("WaFinish", []int{0}, 1, false, w.curChal[1])
+			w.u2fBegin([]int{0})
+			first = w.curChal[1]
+			w.tick(31)
+			w.waBegin([]int{0})
+			w.finish("U2fFinish", []int{0}, 1, false, first)
+			w.waBegin([]int{0})
+			first = w.curChal[1]
+			w.tick(31)
+			w.u2fBegin([]int{0})
+			w.finish("WaFinish", []int{0}, 1, false, first)
+			w.finish("U2fFinish", []int{0}, 1, false, first)
+		},
+		func() { // the same for a bootstrap OTP and a push: issuing / starting again never revives the old value
+			w.issueOtp(2, 60)
+			first := w.curOtp[2]
+			w.tick(61)
+			w.issueOtp(2, 3600)
+			w.bootstrap([]int{1}, first)
+			w.bootstrap([]int{1}, w.curOtp[2])
+			w.issueOtp(2, 60)
+			first = w.curOtp[2]
+			w.issueOtp(2, 60) // superseded within its lifetime
+			w.bootstrap([]int{1}, first)
+			w.tick(61)
+			w.bootstrap([]int{1}, w.curOtp[2])
+			w.pushStart([]int{0}, 0)
+			w.approve(w.vcTx[0])
+			w.tick(121)
+			w.pushStart([]int{0}, 0) // a new transaction, not approved
+			w.poll([]int{0}, 0)
+			w.pushStart([]int{0}, 0) // refused: one is pending
+			w.poll([]int{0}, 0)
+		},
+		func() { // WHOSE value: every factor of the other account presented in one's own session, both directions,
+			// before and after one's own profile row was rewritten; then everything that is enrolled, by its owner
+			cur := func(u int) int {
+				if id, ok := w.curChal[u]; ok {
+					return id
+				}
+				return 9999
+			}
+			otp := func(u int) int {
+				if id, ok := w.curOtp[u]; ok {
+					return id
+				}
+				return -1
+			}
+			cross := func(b, a int, dstep int64) { // in the session of b: the values of a
+				sb := []int{b - 1}
+				w.totp(sb, a, w.modelStep()+dstep)
+				w.vipOtp(sb, a, true)
+				w.u2fBegin(sb)
+				w.finish("U2fFinish", sb, a, false, cur(b))
+				w.finish("U2fFinish", sb, a, true, cur(b))
+				w.waBegin(sb)
+				w.finish("WaFinish", sb, a, true, cur(b))
+				w.finish("WaFinish", sb, a, false, cur(b))
+				w.issueOtp(a, 3600)
+				w.bootstrap(sb, otp(a))
+			}
+			own := func(u int, dstep int64) {
+				su := []int{u - 1}
+				w.totp(su, u, w.modelStep()+dstep)
+				w.u2fBegin(su)
+				w.finish("U2fFinish", su, u, !w.devs[u].u2f, cur(u))
+				w.waBegin(su)
+				w.finish("WaFinish", su, u, w.devs[u].wa, cur(u))
+				w.bootstrap(su, otp(u))
+			}
+			cross(2, 1, 0)
+			cross(1, 2, 0)
+			own(2, 0) // rewrites the row of 2: it is now the newest
+			cross(2, 1, 1)
+			own(1, 1) // ... and now the row of 1 is
+			cross(2, 1, 1)
+			cross(1, 2, 1)
+		},
+		func() { // the Okta second factor: whose pass code, whose push, and for how long after the password check
+			w.oktaOtp([]int{1}, 1, true) // alice's code in bob's session
+			w.oktaOtp([]int{0}, 1, false)
+			w.oktaOtp([]int{0}, 1, true)
+			w.oktaOtp([]int{1, 0}, 1, true)
+			w.oktaPoll([]int{1}) // nothing started: the poll itself sends bob's push
+			w.oktaPushStart([]int{1})
+			w.oktaPoll([]int{1})
+			w.oktaApprove(1) // alice has no push waiting
+			w.oktaPoll([]int{1})
+			w.oktaApprove(2)
+			w.oktaPoll([]int{0}) // alice polls: starts her own
+			w.oktaPoll([]int{1})
+			w.oktaPoll([]int{1}) // finished: once only
+			w.oktaPushStart([]int{0})
+			w.oktaApprove(1)
+			w.oktaPushStart([]int{0}) // the start handler swallows the approval
+			w.oktaPoll([]int{0})
+			w.login(1, true) // a new password check: a new state token
+			last := len(w.cookies) - 1
+			w.oktaPushStart([]int{last})
+			w.oktaApprove(1)
+			w.with(1, false, func() { w.oktaPoll([]int{1}) }) // alice's certificate, bob's cookie
+			w.oktaPoll([]int{0, last})
+			w.tick(150)
+			w.oktaOtp([]int{1}, 2, true) // bob, 150 s after his password check
+			w.tick(150)
+			w.oktaOtp([]int{1}, 2, true) // 300 s: the Okta authentication has expired
+			w.oktaPushStart([]int{1})
+			w.oktaPoll([]int{1})
+			w.oktaOtp([]int{last}, 1, true) // alice logged in 300 s ago too
+			w.login(2, true)
+			w.oktaOtp([]int{1}, 2, true) // the OLD cookie of bob, the new Okta authentication
+			w.oktaOtp([]int{len(w.cookies) - 1}, 2, true)
+		},
+		w.cachedScenario,
 	}
 }
 
+// the primary database is slow for some requests: they are served from the cache copy
+func (w *c05World) cachedScenario() {
+	cur := func(u int) int {
+		if id, ok := w.curChal[u]; ok {
+			return id
+		}
+		return 9999
+	}
+	w.cached(func() { w.totp([]int{0}, 1, w.modelStep()) }) // accepted; nothing can be persisted
+	w.cached(func() { w.totp([]int{0}, 1, w.modelStep()) }) // the same code again, still from the cache
+	w.totp([]int{0}, 1, w.modelStep())                      // ... and with the primary back
+	w.cached(func() { w.totp([]int{0}, 1, w.modelStep()-1) })
+	w.cached(func() { w.totp([]int{1}, 1, w.modelStep()+1) }) // alice's code in bob's session
+	w.cached(func() { w.totp([]int{0}, 1, w.modelStep()+1) })
+	w.tick(30)
+	w.totp([]int{0}, 1, w.modelStep()) // the step accepted from the cache, one step later
+	w.totp([]int{0}, 1, w.modelStep()+1)
+	w.cached(func() { w.u2fBegin([]int{0}) })
+	w.cached(func() { w.finish("U2fFinish", []int{1}, 1, false, cur(1)) })
+	w.cached(func() { w.finish("U2fFinish", []int{0}, 1, false, cur(1)) })
+	w.cached(func() { w.finish("U2fFinish", []int{0}, 1, false, cur(1)) })
+	w.cached(func() { w.waBegin([]int{1}) })
+	w.cached(func() { w.finish("WaFinish", []int{1}, 2, true, cur(2)) })
+	w.cached(func() { w.waBegin([]int{0}) })
+	w.tick(30)
+	w.cached(func() { w.finish("WaFinish", []int{0}, 1, false, cur(1)) }) // expired, cache or not
+	w.cached(func() { w.issueOtp(2, 3600) })                              // an administrator cannot issue an OTP now
+	w.issueOtp(2, 3600)
+	w.cached(func() { w.bootstrap([]int{1}, w.curOtp[2]) }) // ... nor can it be used: it could not be cleared
+	w.bootstrap([]int{1}, w.curOtp[2])
+	w.cached(func() { w.bootstrap([]int{1}, w.curOtp[2]) })
+	w.cached(func() { w.vipOtp([]int{1}, 2, true) })
+	w.cached(func() { w.pushStart([]int{0}, 0) })
+	w.approve(w.vcTx[0])
+	w.cached(func() { w.poll([]int{1}, 0) })
+	w.cached(func() { w.poll([]int{0}, 0) })
+	w.cached(func() { w.login(1, true) })
+	w.cached(func() { w.showTok([]int{len(w.cookies) - 2}, c05TokenLife) })
+}
+
+// the Okta second factor in small scope (runs under the Okta configuration)
+func (w *c05World) oktaAlphabet() []func() {
+	last := func() int { return len(w.cookies) - 1 }
+	return []func(){
+		func() { w.oktaOtp([]int{0}, 1, true) },
+		func() { w.oktaOtp([]int{1}, 1, true) },
+		func() { w.oktaPushStart([]int{0}) },
+		func() { w.oktaApprove(1) },
+		func() { w.oktaPoll([]int{last()}) },
+		func() { w.oktaPoll([]int{1}) },
+		func() { w.tick(150) },
+		func() { w.login(1, true) },
+	}
+}
+
+// the scenarios from this index on are about WHOSE value is presented: they are the ones run under every
+// configuration of the name family
+const c05FamilyTargetedFrom = 15
+
+// ... and this one is the Okta scenario
+const c05OktaTargeted = 16
+
 func TestVerif_C05(t *testing.T) {
 	verifWriteConsts(t)
-	res := newVerifResult("exhaustive depth-3 histories over 13 core letters and depth-2 over all 19 letters of the alphabet (thorough: depth 3 over all 19, depth 4 over the first eight); requests optionally authenticated by a verified client certificate and/or with failing profile writes after the prefix [login alice; login bob] + seeded random histories of length <= 12 (thorough <= 20) over all 16 operations, two enrolment configurations, cookies attached singly and in pairs in both orders + targeted scenarios; non-trivial = the history contains at least one level upgrade; distinct by (operations, outputs)")
+	res := newVerifResult("exhaustive depth-3 histories over 13 core letters and depth-2 over all 29 letters of the alphabet, depth 3 over the 8 letters of the Okta alphabet under the Okta configuration (thorough: depth 3 over 19 letters, depth 4 over the first eight and over the Okta letters); requests optionally authenticated by a verified client certificate, with failing profile writes, or served from the cache database, after the prefix [login user 1; login user 2] + seeded random histories of length <= 12 (thorough <= 20) over all operations + 18 targeted scenarios, under 32 configurations (two plain, a family of user-name pairs in which one name matches the other as a pattern x row orders, two with the Okta authenticator); cookies attached singly and in pairs in both orders; non-trivial = the history contains at least one level upgrade; distinct by (operations, outputs)")
 	vip := &c05Vip{}
 	vip.reset()
 	// lib/vip builds a new http.Transport for every call and never closes its idle connection: without
@@ -1499,7 +2231,7 @@ func TestVerif_C05(t *testing.T) {
 	vip.srv.StartTLS()
 	defer vip.srv.Close()
 	env := verifSetup(t, func(c *AppConfigFile, dir string) {
-		c.Base.AllowedAuthBackendsForWebUI = []string{"U2F", "SymantecVIP", "TOTP", "BootstrapOTP"}
+		c.Base.AllowedAuthBackendsForWebUI = []string{"U2F", "SymantecVIP", "TOTP", "BootstrapOTP", "Okta2FA"}
 		c.Base.AllowedAuthBackendsForCerts = []string{"U2F", "SymantecVIP", "TOTP"}
 		c.Base.AdminUsers = []string{"admin"}
 		c.Base.EnableLocalTOTP = true
@@ -1515,10 +2247,41 @@ func TestVerif_C05(t *testing.T) {
 		kb, _ := x509.MarshalECPrivateKey(k)
 		ioutil.WriteFile(filepath.Join(dir, "vip-cert.pem"), pem.EncodeToMemory(&pem.Block{Type: "CERTIFICATE", Bytes: der}), 0600)
 		ioutil.WriteFile(filepath.Join(dir, "vip-key.pem"), pem.EncodeToMemory(&pem.Block{Type: "EC PRIVATE KEY", Bytes: kb}), 0600)
+		// the users of the name family log in through the same htpasswd backend
+		if f, err := os.OpenFile(c.Base.HtpasswdFilename, os.O_APPEND|os.O_WRONLY, 0644); err == nil {
+			for _, n := range c05FamilyNames() {
+				h, err := bcrypt.GenerateFromPassword([]byte(n+"pw"), 4)
+				if err != nil {
+					t.Fatal(err)
+				}
+				hs := string(h)
+				if strings.HasPrefix(hs, "$2a$") {
+					hs = "$2y$" + hs[4:]
+				}
+				f.WriteString(n + ":" + hs + "\n")
+			}
+			f.Close()
+		} else {
+			t.Fatal(err)
+		}
 		c.SymantecVIP.Enabled = true
 		c.SymantecVIP.CertFile = filepath.Join(dir, "vip-cert.pem")
 		c.SymantecVIP.KeyFile = filepath.Join(dir, "vip-key.pem")
 	})
+	oktaSvc := &c05Okta{passwords: map[string]string{"alice": "alicepw", "bob": "bobpw", "admin": "adminpw"}}
+	for _, n := range c05FamilyNames() {
+		oktaSvc.passwords[n] = n + "pw"
+	}
+	oktaSvc.reset()
+	oktaSvc.srv = httptest.NewServer(http.HandlerFunc(oktaSvc.handle))
+	defer oktaSvc.srv.Close()
+	oktaAuth, err := okta.NewPublicTesting(oktaSvc.srv.URL+"/api/v1/authn", nulllogger.New())
+	if err != nil {
+		t.Fatal(err)
+	}
+	// main() registers the Okta second-factor routes when an Okta domain is configured
+	env.state.Config.Okta.Domain = "verif"
+	env.state.Config.Okta.Enable2FA = true
 	client := env.state.Config.SymantecVIP.Client
 	if client == nil {
 		t.Fatal("VIP client not configured")
@@ -1533,6 +2296,7 @@ func TestVerif_C05(t *testing.T) {
 	logger = nulllogger.New()
 	webui := env.state.getRequiredWebUIAuthLevel()
 	w := &c05World{t: t, env: env, vip: vip, res: res, names: []string{"", "alice", "bob", "admin"}, webui: webui,
+		okta: oktaSvc, oktaAuth: oktaAuth, htpasswd: env.state.passwordChecker,
 		secret: map[int]string{}, u2fKey: map[int]*c05Key{}, waKey: map[int]*c05Key{}}
 	for u := 1; u <= 2; u++ {
 		key, err := totp.Generate(totp.GenerateOpts{Issuer: "verif", AccountName: w.names[u]})
@@ -1545,10 +2309,7 @@ func TestVerif_C05(t *testing.T) {
 	}
 	w.admin = env.cookie("admin", AuthTypeU2F)
 	w.savedFor = -1
-	configs := []map[int]c05Devs{
-		{1: {totp: true, u2f: true, profile: true}, 2: {wa: true, profile: true}},
-		{1: {totp: true, u2f: true, wa: true, profile: true}, 2: {profile: true}},
-	}
+	configs := c05Configs()
 	rng := verifRand()
 	thorough := verifThorough()
 	type hist struct {
@@ -1573,17 +2334,34 @@ func TestVerif_C05(t *testing.T) {
 	}
 	// targeted scenarios, under both configurations
 	for ci := range configs {
-		w.devs, w.cfgID = configs[ci], ci
+		w.use(configs, ci)
 		n := len(w.targeted())
 		for i := 0; i < n; i++ {
+			switch configs[ci].class() {
+			case "family": // the name families run the scenario that is about WHOSE value is presented
+				if i != c05FamilyTargetedFrom {
+					continue
+				}
+			case "okta":
+				if i != c05FamilyTargetedFrom && i != c05OktaTargeted {
+					continue
+				}
+			default:
+				if i == c05OktaTargeted && ci != 0 {
+					continue // without the Okta backend every Okta operation is refused: seen once
+				}
+			}
 			w.prefix()
 			w.targeted()[i]()
 			finishHistory(ci, fmt.Sprintf("targeted-%d", i))
 			res.bump("history:targeted")
+			res.bump("config:" + configs[ci].tag)
 		}
 	}
 	// exhaustive small scope: depth 3 over the whole alphabet; thorough adds depth 4 over its first eight letters
-	w.devs, w.cfgID = configs[0], 0
+	w.use(configs, 0)
+	alphabetOf := w.alphabet
+	enumCfg := 0
 	enumerate := func(letters []int, depth int, tag string) {
 		nAlpha := len(letters)
 		total := 1
@@ -1594,10 +2372,10 @@ func TestVerif_C05(t *testing.T) {
 			w.prefix()
 			x := h
 			for i := 0; i < depth; i++ {
-				w.alphabet()[letters[x%nAlpha]]()
+				alphabetOf()[letters[x%nAlpha]]()
 				x /= nAlpha
 			}
-			finishHistory(0, tag)
+			finishHistory(enumCfg, tag)
 			res.bump("history:" + tag)
 		}
 	}
@@ -1606,11 +2384,31 @@ func TestVerif_C05(t *testing.T) {
 		allLetters[i] = i
 	}
 	if thorough {
-		enumerate(allLetters, 3, "exhaustive")
+		// depth 3 over the 13 core letters plus the six letters of rounds 3 and 4 (another session of the same
+		// user an hour later; a second sign request after 31 s; an assertion over the first challenge; the other
+		// user's code; TOTP and bootstrap OTP served from the cache): 19^3 = 6859; all 29 at depth 2
+		enumerate(append(append([]int{}, c05Core...), 19, 24, 25, 26, 27, 28), 3, "exhaustive")
+		enumerate(allLetters, 2, "exhaustive-depth2")
 		enumerate(allLetters[:8], 4, "exhaustive-depth4")
 	} else {
 		enumerate(c05Core, 3, "exhaustive")
 		enumerate(allLetters, 2, "exhaustive-depth2")
+	}
+	// the Okta second factor: depth 3 (thorough 4) over its own alphabet under the Okta configuration
+	for ci := range configs {
+		if configs[ci].tag == "okta-plain" {
+			w.use(configs, ci)
+			alphabetOf, enumCfg = w.oktaAlphabet, ci
+			ol := make([]int, len(w.oktaAlphabet()))
+			for i := range ol {
+				ol[i] = i
+			}
+			if thorough {
+				enumerate(ol, 4, "exhaustive-okta")
+			} else {
+				enumerate(ol, 3, "exhaustive-okta")
+			}
+		}
 	}
 	res.Exhaustive = true
 	// random
@@ -1619,8 +2417,16 @@ func TestVerif_C05(t *testing.T) {
 		nRandom, maxLen = 2000, 20
 	}
 	for h := 0; h < nRandom; h++ {
-		ci := h % len(configs)
-		w.devs, w.cfgID = configs[ci], ci
+		// half of the random histories under the two plain configurations, a quarter across the name family
+		// ... and a quarter under the Okta configurations (the last two)
+		ci := (h / 2) % 2
+		switch h % 4 {
+		case 1:
+			ci = 2 + (h/4)%(len(configs)-4)
+		case 3:
+			ci = len(configs) - 2 + (h/4)%2
+		}
+		w.use(configs, ci)
 		w.prefix()
 		n := 3 + rng.Intn(maxLen-2)
 		for i := 0; i < n; i++ {
@@ -1635,21 +2441,48 @@ func TestVerif_C05(t *testing.T) {
 	}
 
 	// ---- Coq cases
+	coqName := func(n string) string {
+		var parts []string
+		for _, b := range []byte(n) {
+			parts = append(parts, fmt.Sprintf("%d", b))
+		}
+		return "[" + strings.Join(parts, ";") + "]"
+	}
 	var sb strings.Builder
 	sb.WriteString(coqCaseHeader)
-	sb.WriteString("From KM Require Import Base.Cases Model.Session.\nOpen Scope N_scope.\n")
+	sb.WriteString("From KM Require Import Base.Cases Model.Session Model.Profiles Model.SessionObs.\nOpen Scope N_scope.\n")
 	sb.WriteString("Definition A (u ch : N) (wa : bool) : assertion := {| a_owner := u; a_wa_key := wa; a_chal := ch |}.\n")
 	sb.WriteString("Definition D (t u w : bool) : devices := {| has_totp := t; has_u2f := u; has_wa := w; has_profile := true |}.\n")
-	sb.WriteString("Definition nodev : devices := {| has_totp := false; has_u2f := false; has_wa := false; has_profile := false |}.\n")
+	// per configuration: the names of the users (byte strings) and the profile table as the harness wrote it,
+	// row by row in that order; the enrolment the session machine sees is the model's exact-name lookup
+	var namesOK, cfgList []string
 	for ci, c := range configs {
-		sb.WriteString(fmt.Sprintf("Definition devs%d (u : N) : devices := if u =? 1 then D %s %s %s else if u =? 2 then D %s %s %s else nodev.\n", ci,
-			coqBool(c[1].totp), coqBool(c[1].u2f), coqBool(c[1].wa), coqBool(c[2].totp), coqBool(c[2].u2f), coqBool(c[2].wa)))
+		sb.WriteString(fmt.Sprintf("(* configuration %d: %s *)\n", ci, c.tag))
+		sb.WriteString(fmt.Sprintf("Definition names%d (u : N) : bs := if u =? 1 then %s else if u =? 2 then %s else [].\n", ci, coqName(c.names[1]), coqName(c.names[2])))
+		tbl := "[]"
+		for _, u := range c.order {
+			if d := c.devs[u]; d.profile {
+				tbl = fmt.Sprintf("save (names%d %d) (D %s %s %s) (%s)", ci, u, coqBool(d.totp), coqBool(d.u2f), coqBool(d.wa), tbl)
+			}
+		}
+		sb.WriteString(fmt.Sprintf("Definition table%d : table := %s.\n", ci, tbl))
+		sb.WriteString(fmt.Sprintf("Definition devs%d : N -> devices := devs_of names%d table%d.\n", ci, ci, ci))
+		namesOK = append(namesOK, fmt.Sprintf("distinct [names%d 1; names%d 2; names%d 3]", ci, ci, ci))
+		if c.okta {
+			cfgList = append(cfgList, fmt.Sprintf("fixed_okta devs%d webui_mask %d", ci, c05OktaLife))
+		} else {
+			cfgList = append(cfgList, fmt.Sprintf("fixed devs%d webui_mask", ci))
+		}
 	}
 	sb.WriteString(fmt.Sprintf("Definition webui_mask : N := %d.\n", webui))
-	sb.WriteString("Definition cfg_of (i : N) : config := fixed (if i =? 0 then devs0 else devs1) webui_mask.\n")
-	sb.WriteString(fmt.Sprintf("(* maxAgeSecondsAuthCookie / maxAgeSecondsVIPCookie of the tree must be the lifetimes the theorems are stated with *)\nDefinition life_ok : bool := ((%d =? cookie_life (cfg_of 0)) && (%d =? vip_life (cfg_of 0)))%%Z.\n", int64(maxAgeSecondsAuthCookie), int64(maxAgeSecondsVIPCookie)))
-	sb.WriteString("Definition bad (h : N * list op * list (bool * option (N * N * Z * Z))) : bool :=\n  let '(i, ops, obs) := h in negb (life_ok && match obs_agree (run_obs (cfg_of i) init ops) obs 0 with [] => true | _ => false end).\n")
-	sb.WriteString("Definition cases : list (N * list op * list (bool * option (N * N * Z * Z))) := [\n")
+	sb.WriteString("Definition all_cfgs : list config := [" + strings.Join(cfgList, "; ") + "].\n")
+	sb.WriteString("Definition cfg_of (i : N) : config := nth (N.to_nat i) all_cfgs (fixed devs0 webui_mask).\n")
+	sb.WriteString("(* distinct users have distinct names (the model compares user numbers, the code compares names) *)\nDefinition names_ok : bool := " + strings.Join(namesOK, " && ") + ".\n")
+	sb.WriteString(fmt.Sprintf("(* maxAgeSecondsAuthCookie / maxAgeSecondsVIPCookie / maxAgeU2FVerifySeconds of the tree must be the lifetimes the theorems are stated with *)\nDefinition life_ok : bool := ((%d =? cookie_life (cfg_of 0)) && (%d =? vip_life (cfg_of 0)) && (%d =? chal_life))%%Z.\n", int64(maxAgeSecondsAuthCookie), int64(maxAgeSecondsVIPCookie), int64(maxAgeU2FVerifySeconds)))
+	sb.WriteString("Definition hist := (N * list op * list observed)%type.\n")
+	sb.WriteString("Definition bad (h : hist) : bool :=\n  let '(i, ops, obs) := h in negb (life_ok && names_ok && match obs_agree (run_obs (cfg_of i) init ops) obs 0 with [] => true | _ => false end).\n")
+	sb.WriteString("(* the property's own predicates on the observed outputs of a mismatching history (Model.SessionObs) *)\nDefinition viol (h : hist) : nat := let '(i, ops, obs) := h in violation (cfg_of i) init ops obs.\n")
+	sb.WriteString("Definition cases : list hist := [\n")
 	var idx strings.Builder
 	for i, h := range all {
 		sep := ";"
@@ -1657,11 +2490,12 @@ func TestVerif_C05(t *testing.T) {
 			sep = ""
 		}
 		sb.WriteString(fmt.Sprintf(" (%d, [%s], [%s])%s\n", h.cfg, strings.Join(h.ops, "; "), strings.Join(h.outs, "; "), sep))
-		idx.WriteString(fmt.Sprintf("%d\t%s cfg=%d %s => %s\n", i, h.tag, h.cfg, strings.Join(h.human, " ; "), strings.Join(h.outs, " ")))
+		idx.WriteString(fmt.Sprintf("%d\t%s cfg=%d(%s: 1=%q 2=%q) %s => %s\n", i, h.tag, h.cfg, configs[h.cfg].tag, configs[h.cfg].names[1], configs[h.cfg].names[2], strings.Join(h.human, " ; "), strings.Join(h.outs, " ")))
 	}
 	sb.WriteString("].\nDefinition c05_mismatches := Eval vm_compute in mismatches bad cases.\nPrint c05_mismatches.\n")
 	sb.WriteString("Definition c05_ncases := Eval vm_compute in length cases.\nPrint c05_ncases.\n")
 	sb.WriteString("Definition c05_first := Eval vm_compute in match c05_mismatches with [] => [] | i :: _ => match nth_error cases i with Some (c, ops, obs) => obs_agree (run_obs (cfg_of c) init ops) obs 0 | None => [] end end.\nPrint c05_first.\n")
+	sb.WriteString("Definition c05_violating := Eval vm_compute in classify bad viol cases 0.\nPrint c05_violating.\n")
 	if err := ioutil.WriteFile(filepath.Join(verifOut(), "CasesC05.v"), []byte(sb.String()), 0644); err != nil {
 		t.Fatal(err)
 	}
